@@ -646,9 +646,9 @@ pub fn apply_b<'a, T: Cellish>(op: &Op, slots: &mut Vec<BS<'a, T>>, bump: &'a Bu
         }
         "ptrfmt" => {
             let (pb, pp) = match &slots[s] {
-                BS::Box0(b) => (format!("{:p}", b), format!("{:p}", &**b as *const T)),
-                BS::Slice(b, _) => (format!("{:p}", b), format!("{:p}", &**b as *const [T])),
-                BS::Str(b) => (format!("{:p}", b), format!("{:p}", &**b as *const str)),
+                BS::Box0(b) => (format!("{:p}", *b), format!("{:p}", &**b as *const T)),
+                BS::Slice(b, _) => (format!("{:p}", *b), format!("{:p}", &**b as *const [T])),
+                BS::Str(b) => (format!("{:p}", *b), format!("{:p}", &**b as *const str)),
                 _ => return skip(),
             };
             out(if pb == pp { "ok same" } else { "ok differ" })
